@@ -418,6 +418,12 @@ func (s *Syncer) handleRPC(id types.Specifier, stream *gateway.Stream, origin *P
 		// quickly as possible that a new block has been found. A proper
 		// BlockOutline should follow soon after, allowing peers to obtain the
 		// actual block. As such, we take no action here other than relaying.
+		//
+		// The outline only follows when the block was just mined, though: a peer
+		// that announces its tip after syncing sends nothing else. Remember
+		// that the peer is ahead of us, so that the sync loop fetches the block
+		// if it has not arrived by then.
+		s.resync(origin, "peer relayed a v2 header that extends our tip")
 		go s.relayV2Header(r.Header, origin) // non-blocking
 		return nil
 
